@@ -299,11 +299,9 @@ func init() {
 		"(*sync.WaitGroup).Add":   intWGAdd,
 		"(*sync.WaitGroup).Done":  func(fr *frame, a []value) value { return intWGAdd(fr, []value{a[0], -1}) },
 		"(*sync.WaitGroup).Wait":  intWGWait,
-		"(*sync.Cond).Broadcast":  func(fr *frame, a []value) value { return nil },
-		"(*sync.Cond).Signal":     func(fr *frame, a []value) value { return nil },
-		"(*sync.Cond).Wait": func(fr *frame, a []value) value {
-			panic(unsupported{"sync.Cond.Wait would block (no goroutine scheduler)"})
-		},
+		"(*sync.Cond).Broadcast":  intCondSignal,
+		"(*sync.Cond).Signal":     intCondSignal,
+		"(*sync.Cond).Wait":       intCondWait,
 		"(*sync.Pool).Get": intPoolGet,
 		"(*sync.Pool).Put": func(fr *frame, a []value) value { return nil },
 
@@ -348,8 +346,13 @@ func init() {
 		"internal/reflectlite.TypeOf": ext۰reflect۰TypeOf,
 		"math.Pow": func(fr *frame, a []value) value { return math.Pow(a[0].(float64), a[1].(float64)) },
 		"time.After": func(fr *frame, a []value) value {
-			return &channel{cap: 1, buf: []value{zero(fr.fn.Signature.Results().At(0).Type().Underlying().(*types.Chan).Elem())}}
+			return &channel{cap: 1, i: fr.i, timer: true, buf: []value{zero(fr.fn.Signature.Results().At(0).Type().Underlying().(*types.Chan).Elem())}}
 		},
+		"time.NewTimer":        intNewTimer,
+		"(*time.Timer).Stop":   intTimerStop,
+		"(*time.Timer).Reset":  intTimerReset,
+		"time.NewTicker":       intNewTicker,
+		"(*time.Ticker).Stop":  func(fr *frame, a []value) value { return nil },
 		"flag.IntVar": intFlagVar, "flag.BoolVar": intFlagVar, "flag.StringVar": intFlagVar, "flag.DurationVar": intFlagVar,
 		"flag.Float64VarX": intFlagVar, "flag.Int64Var": intFlagVar, "flag.UintVar": intFlagVar, "flag.Float64Var": intFlagVar,
 		"flag.Int": intFlagNew, "flag.Bool": intFlagNew, "flag.String": intFlagNew, "flag.Duration": intFlagNew, "flag.Float64": intFlagNew,
@@ -397,7 +400,19 @@ func init() {
 		},
 		"runtime.NumCPU": func(fr *frame, a []value) value { return 4 },
 		"runtime.GOMAXPROCS": func(fr *frame, a []value) value { return 4 },
-		"runtime.Gosched": func(fr *frame, a []value) value { return nil },
+		"runtime.Gosched": func(fr *frame, a []value) value {
+			if s := fr.i.sched; s != nil {
+				// let every other runnable goroutine run until it blocks
+				cur := s.cur
+				s.fireTimers(true)
+				for _, g := range append([]*gor(nil), s.gs...) {
+					if g != cur && g.runnable() {
+						s.switchTo(cur, g)
+					}
+				}
+			}
+			return nil
+		},
 		"runtime.Stack":  func(fr *frame, a []value) value { return 0 },
 		"runtime/debug.Stack": func(fr *frame, a []value) value { return []value(nil) },
 		"os.Getenv":      func(fr *frame, a []value) value { return "" },
@@ -455,6 +470,10 @@ func lockKey(v value) *value {
 
 func intMutexLock(fr *frame, a []value) value {
 	k := lockKey(a[0])
+	if fr.i.sched != nil {
+		fr.i.sched.yield()
+		fr.i.sched.waitFor(func() bool { return fr.i.locks[k] == 0 })
+	}
 	if fr.i.locks[k] != 0 {
 		panic(unsupported{"lock acquired while already held (sequential engine would deadlock) at " + fr.callerPos()})
 	}
@@ -489,6 +508,9 @@ func intMutexUnlock(fr *frame, a []value) value {
 
 func intRLock(fr *frame, a []value) value {
 	k := lockKey(a[0])
+	if fr.i.sched != nil {
+		fr.i.sched.waitFor(func() bool { return fr.i.locks[k] != -1 })
+	}
 	if fr.i.locks[k] == -1 {
 		panic(unsupported{"RLock while write-locked (sequential engine would deadlock)"})
 	}
@@ -526,6 +548,9 @@ func intWGAdd(fr *frame, a []value) value {
 
 func intWGWait(fr *frame, a []value) value {
 	k := lockKey(a[0])
+	if fr.i.sched != nil {
+		fr.i.sched.waitFor(func() bool { return fr.i.wgs[k] <= 0 })
+	}
 	if fr.i.wgs[k] > 0 {
 		panic(unsupported{"WaitGroup.Wait would block (no goroutine scheduler)"})
 	}
@@ -1064,4 +1089,107 @@ func (i *interpreter) findAnon(fr *frame, name string) *ssa.Function {
 		}
 	}
 	return found
+}
+
+func intCondSignal(fr *frame, a []value) value {
+	if fr.i.condGen == nil {
+		fr.i.condGen = map[*value]int{}
+	}
+	fr.i.condGen[lockKey(a[0])]++
+	return nil
+}
+
+func intCondWait(fr *frame, a []value) value {
+	i := fr.i
+	if i.sched == nil {
+		panic(unsupported{"sync.Cond.Wait would block (no goroutine scheduler)"})
+	}
+	if i.condGen == nil {
+		i.condGen = map[*value]int{}
+	}
+	k := lockKey(a[0])
+	// field L (a sync.Locker) of the Cond
+	st := (*k).(structure)
+	var L iface
+	for _, f := range st {
+		if x, ok := f.(iface); ok && x.t != nil {
+			L = x
+		}
+	}
+	callMethod := func(name string) {
+		sel := i.prog.MethodSets.MethodSet(L.t).Lookup(nil, name)
+		call(i, fr, token.NoPos, i.prog.MethodValue(sel), []value{L.v})
+	}
+	gen := i.condGen[k]
+	callMethod("Unlock")
+	i.sched.waitFor(func() bool { return i.condGen[k] != gen })
+	callMethod("Lock")
+	return nil
+}
+
+// Timers fire "at any time": the channel is ready as soon as the timer is
+// set, and the (nondeterministic) select decides when it is observed.
+func timerChan(fr *frame, t types.Type) (*value, *channel) {
+	st := t.Underlying().(*types.Struct)
+	v := zero(t)
+	cell := &v
+	for k := 0; k < st.NumFields(); k++ {
+		if st.Field(k).Name() == "C" {
+			ch := &channel{cap: 1, i: fr.i, timer: true}
+			(*cell).(structure)[k] = ch
+			return cell, ch
+		}
+	}
+	panic("timer without C")
+}
+
+func timerC(tv value) *channel {
+	st := (*(tv.(*value))).(structure)
+	for _, f := range st {
+		if ch, ok := f.(*channel); ok {
+			return ch
+		}
+	}
+	return nil
+}
+
+func intNewTimer(fr *frame, a []value) value {
+	t := fr.fn.Signature.Results().At(0).Type().Underlying().(*types.Pointer).Elem()
+	cell, ch := timerChan(fr, t)
+	ch.buf = []value{zero(ch2elem(fr, t))}
+	return cell
+}
+
+func ch2elem(fr *frame, t types.Type) types.Type {
+	st := t.Underlying().(*types.Struct)
+	for k := 0; k < st.NumFields(); k++ {
+		if st.Field(k).Name() == "C" {
+			return st.Field(k).Type().Underlying().(*types.Chan).Elem()
+		}
+	}
+	panic("no C")
+}
+
+func intTimerStop(fr *frame, a []value) value {
+	ch := timerC(a[0])
+	// not yet observed: stopping succeeds and the pending tick is dropped
+	if len(ch.buf) > 0 {
+		ch.buf = nil
+		return true
+	}
+	return true
+}
+
+func intTimerReset(fr *frame, a []value) value {
+	ch := timerC(a[0])
+	was := len(ch.buf) > 0
+	t := fr.fn.Signature.Recv().Type().Underlying().(*types.Pointer).Elem()
+	ch.buf = []value{zero(ch2elem(fr, t))}
+	return was
+}
+
+func intNewTicker(fr *frame, a []value) value {
+	t := fr.fn.Signature.Results().At(0).Type().Underlying().(*types.Pointer).Elem()
+	cell, _ := timerChan(fr, t)
+	return cell // never ticks
 }
